@@ -43,6 +43,11 @@ Theorem C15_handed_over_exactly_once :
   hook_calls (actions (react default pdu h)) ok 0 = 1%nat.
 Proof. exact handed_over_exactly_once. Qed.
 
+(* ... and when the session is torn down while the receiver handles a PDU it has read (it is cancelled inside the handler - the correlator's
+   sweep awaiting the application's send_error hook - or inside the received hook): the handling runs to its end *)
+Theorem C15_read_pdu_survives_cancellation : forall is_request ph, hook_calls_when_cancelled is_request ph = 1%nat.
+Proof. exact read_pdu_survives_cancellation. Qed.
+
 (* the answer to a parsed request (deliver_sm, enquire_link, unbind) is written only after the received hook returned *)
 Theorem C15_answer_after_hook :
   forall default pdu h,
